@@ -14,6 +14,7 @@ import AaVerif.Aa.Resolve
 import AaVerif.Aa.FromLog
 import AaVerif.Generated.LogRx
 import AaVerif.Aa.Parse
+import AaVerif.Ref.Grammar
 open Proto
 
 /-- model of a builder by name, when it is one of the literal replace lists -/
@@ -312,6 +313,13 @@ def suiteToAccess (f : List String) : String :=
   | [k] => resTo (Aa.Parse.toAccess T k []) (fun l => "ok\t" ++ escList l)
   | _ => "err\tbad-op"
 
+/-- refread <text> -> some <rule> | none : the reference-syntax reader -/
+def suiteRefRead (f : List String) : String :=
+  let t := match f with | [t] => unesc t | _ => []
+  match Ref.read T t with
+  | some r => "some\t" ++ Aa.encodeRule (some r)
+  | none => "none"
+
 def main (args : List String) : IO Unit := do
   match args with
   | ["builder"] => serve suiteBuilder
@@ -334,6 +342,7 @@ def main (args : List String) : IO Unit := do
   | ["mergevalues"] => serve suiteMergeValues
   | ["cmpstr"] => serve suiteCmpStr
   | ["filterspec"] => serve suiteFilterSpec
+  | ["refread"] => serve suiteRefRead
   | ["render1"] => serve suiteRender1
   | ["render"] => serve suiteRender
   | ["tokenize"] => serve suiteTokenize
